@@ -214,9 +214,18 @@ func coreReads(m *memImage, q *radius.Packet) []readOp {
 		dec("Short", func() (string, [][]byte) { v, e := radius.Short(val); return fmt.Sprint(v, e), nil })
 		dec("Integer64", func() (string, [][]byte) { v, e := radius.Integer64(val); return fmt.Sprint(v, e), nil })
 		dec("Date", func() (string, [][]byte) { v, e := radius.Date(val); return fmt.Sprint(v.Unix(), e), nil })
-		dec("IPAddr", func() (string, [][]byte) { v, e := radius.IPAddr(val); return fmt.Sprintf("%x %v", []byte(v), e), [][]byte{v} })
-		dec("IPv6Addr", func() (string, [][]byte) { v, e := radius.IPv6Addr(val); return fmt.Sprintf("%x %v", []byte(v), e), [][]byte{v} })
-		dec("IFID", func() (string, [][]byte) { v, e := radius.IFID(val); return fmt.Sprintf("%x %v", []byte(v), e), [][]byte{v} })
+		dec("IPAddr", func() (string, [][]byte) {
+			v, e := radius.IPAddr(val)
+			return fmt.Sprintf("%x %v", []byte(v), e), [][]byte{v}
+		})
+		dec("IPv6Addr", func() (string, [][]byte) {
+			v, e := radius.IPv6Addr(val)
+			return fmt.Sprintf("%x %v", []byte(v), e), [][]byte{v}
+		})
+		dec("IFID", func() (string, [][]byte) {
+			v, e := radius.IFID(val)
+			return fmt.Sprintf("%x %v", []byte(v), e), [][]byte{v}
+		})
 		dec("VendorSpecific", func() (string, [][]byte) {
 			id, v, e := radius.VendorSpecific(val)
 			return fmt.Sprintf("%d %x %v", id, []byte(v), e), [][]byte{v}
